@@ -6,7 +6,7 @@
  never "*" together with credentials; Vary: Origin whenever the answer depends on the
  origin; preflights answered 204 with the configured methods/headers, handler not reached.
  ***************************************************************************)
-EXTENDS Naturals, Sequences, FiniteSets, TLC, Json
+EXTENDS Integers, Sequences, FiniteSets, TLC, Json
 CONSTANT Scope      \* "quick": fewer secondary options; "full": the whole product
 
 O(s, h, p) == [scheme |-> s, host |-> h, port |-> p]
@@ -20,13 +20,17 @@ NullOrigin == O("null", "", "")
 ExactPool == {O("https", "example.com", ""), O("http", "example.com", "8080"), O("https", "api.example.com", "")}
 WildPool == {O("https", "example.com", ""), O("https", "example.com", "8080")}   \* scheme://*.host[:port]
 FuncOrigin == O("https", "other.org", "")
+\* how the configuration WRITES its list entries: as serialized, with a trailing slash, in upper case, or with blanks around.
+\* The constructor normalises all four to the same policy, so the answer does not depend on it.
+Spellings == {"plain", "slash", "upper", "space"}
 
 Cfg == IF Scope = "full"
        THEN [exact : SUBSET ExactPool, wild : SUBSET WildPool, fn : BOOLEAN, all : BOOLEAN, blank : BOOLEAN,
-             cred : BOOLEAN, pna : BOOLEAN, maxAge : {0, 600}, hdrs : BOOLEAN, expose : BOOLEAN]
+             cred : BOOLEAN, pna : BOOLEAN, maxAge : {0, 600, -1}, hdrs : BOOLEAN, expose : BOOLEAN, spell : Spellings]
        ELSE {c \in [exact : SUBSET {O("https", "example.com", ""), O("http", "example.com", "8080")}, wild : SUBSET WildPool, fn : BOOLEAN, all : BOOLEAN, blank : BOOLEAN,
-                     cred : BOOLEAN, pna : BOOLEAN, maxAge : {600}, hdrs : BOOLEAN, expose : BOOLEAN] : c.pna = c.hdrs /\ c.expose = c.fn}
-Req == [method : {"GET", "OPTIONS"}, origin : Origins \cup {NoOrigin, NullOrigin}, acrm : BOOLEAN, acrh : BOOLEAN, pna : BOOLEAN, upper : BOOLEAN]
+                     cred : BOOLEAN, pna : BOOLEAN, maxAge : {600, -1}, hdrs : BOOLEAN, expose : BOOLEAN, spell : Spellings] :
+                     c.pna = c.hdrs /\ c.expose = c.fn /\ (c.maxAge = -1 => c.spell = "plain" /\ ~c.cred)}
+Req == [method : {"GET", "POST", "OPTIONS"}, origin : Origins \cup {NoOrigin, NullOrigin}, acrm : BOOLEAN, acrh : BOOLEAN, pna : BOOLEAN, upper : BOOLEAN]
 
 VARIABLES cfg, req, stage
 vars == <<cfg, req, stage>>
@@ -55,7 +59,7 @@ Answer(c, r) ==
        acam |-> Preflight(r),
        acah |-> IF ~Preflight(r) THEN "" ELSE IF c.hdrs THEN "configured" ELSE IF r.acrh THEN "echo" ELSE "",
        apn |-> Preflight(r) /\ c.pna /\ r.pna,
-       maxAge |-> IF Plain(r) THEN 0 ELSE c.maxAge,
+       maxAge |-> IF Plain(r) THEN 0 ELSE c.maxAge,      \* > 0: that number of seconds; < 0: the header says 0 (do not cache); 0: no header
        expose |-> ~Plain(r) /\ c.expose ]
 
 Init == stage = 0 /\ cfg \in Cfg /\ req = [method |-> "GET", origin |-> NoOrigin, acrm |-> FALSE, acrh |-> FALSE, pna |-> FALSE, upper |-> FALSE]
@@ -65,8 +69,9 @@ Init == stage = 0 /\ cfg \in Cfg /\ req = [method |-> "GET", origin |-> NoOrigin
 WellFormed(c) == /\ (c.all => c.exact = {} /\ c.wild = {} /\ ~c.fn)
                  /\ (~c.all => (c.exact # {} \/ c.wild # {} \/ c.fn \/ c.blank))
                  /\ (c.blank => c.exact = {} /\ c.wild = {} /\ ~c.fn /\ ~c.all)
+                 /\ (c.exact = {} /\ c.wild = {} => c.spell = "plain")       \* nothing to spell
 Next == /\ stage = 0 /\ WellFormed(cfg) /\ stage' = 1 /\ UNCHANGED cfg
-        /\ \E r \in Req : /\ (r.method = "GET" => ~r.acrm /\ ~r.acrh /\ ~r.pna)
+        /\ \E r \in Req : /\ (r.method # "OPTIONS" => ~r.acrm /\ ~r.acrh /\ ~r.pna)
                           /\ (~HasOrigin(r) => ~r.upper)
                           /\ (Scope = "quick" => (r.pna = r.acrh /\ (r.upper => r.origin.port = "")))
                           /\ req' = r
@@ -76,5 +81,9 @@ Spec == Init /\ [][Next]_vars
 NeverStarWithCredentials == stage = 1 => LET a == Answer(cfg, req) IN ~(a.acao = "*" /\ a.acac)
 AcaoOnlyIfAllowed == stage = 1 => LET a == Answer(cfg, req) IN a.acao # "" => (cfg.all \/ Allowed(cfg, req.origin))
 LookAlikesRefused == (stage = 1 /\ req.origin.host \in {"evilexample.com", "example.com.evil.net"} /\ ~cfg.all) => Answer(cfg, req).acao = ""
+\* the spelling of the configuration's entries is not an input of the decision
+SpellingIrrelevant == stage = 1 => \A sp \in Spellings : Answer([cfg EXCEPT !.spell = sp], req) = Answer(cfg, req)
+\* a method other than OPTIONS is never answered as a preflight: the handler runs
+OnlyOptionsIsPreflight == stage = 1 /\ req.method # "OPTIONS" => LET a == Answer(cfg, req) IN a.handler /\ a.status = 200 /\ ~a.acam /\ a.acah = ""
 Emit == stage = 1 => PrintT(<<"CASE", ToJson([cfg |-> cfg, req |-> req, ans |-> Answer(cfg, req)])>>)
 =============================================================================
